@@ -86,11 +86,13 @@ func (c *compiler) write(bb *strings.Builder, i interface{}) {
 	}
 	switch t := i.(type) {
 	case time.Time:
+		// the layout is a string of the template's data: what it spells between
+		// the date elements is text like any other string, not trusted HTML
 		if dtf, ok := c.ctx.Value("TIME_FORMAT").(string); ok {
-			bb.Write(unsafeGetBytes(t.Format(dtf)))
+			bb.Write(unsafeGetBytes(template.HTMLEscapeString(t.Format(dtf))))
 			return
 		}
-		bb.Write(unsafeGetBytes(t.Format(DefaultTimeFormat)))
+		bb.Write(unsafeGetBytes(template.HTMLEscapeString(t.Format(DefaultTimeFormat))))
 	case *time.Time:
 		if t != nil {
 			c.write(bb, *t)
